@@ -166,12 +166,40 @@ def run(ctx):
                         "mask parameter parsers are summarised in instruction-level runs (consume k words, deliver one block) and checked per declared bit separately",
                         "variadic operands unrolled up to 5 repetitions; OpSpecConstantOp nests a representative set of opcodes (one per operand-shape class) plus all opcodes with special kinds",
                         "strings: consume k >= 1 words within limit and stream (C11)"]
+    rp = Replay()
+    npaths, chosen = entry_runs(ctx, q, S, rp, only_special=False)
+    lookup_contract(ctx, rp, entries)
+    mask_parameter_bits(ctx, S, q, rp)
+    enum_parameter_values(ctx, S, q, rp)
+    import c10
+    c10.literal_lemmas(ctx, q, S, rp)        # the widths of context-dependent literals (OpConstant, OpSpecConstant, OpSwitch)
+    rp.close()
+    ctx.validated = rp.count
+    # header on the compiled code
+    res = kani.run_many(["k_parse_header"], cap_s=420)
+    kani.settle(ctx, res, lambda h: h[2:])
+    ctx.extra["states"] = len(chosen)
+    ctx.extra["transitions"] = npaths
+    ctx.extra["cvc5"] = q.summary()
+    ctx.extra["explanation"] = "parse_inst executed symbolically per grammar entry; every path classified against framing and grammar-acceptance rules."
+
+
+def entry_runs(ctx, q, S, rp, only_special):
+    """`parse_inst` per grammar entry (see the module docstring). only_special: just the entries whose operands include a
+    context-dependent, paired or nested kind (C02 runs those: they are where 'inverse of the assembler' is not a per-kind fact)."""
+    T = S.T
+    kn, qn = T["kind_names"], T["quant_names"]
+    P = tables.parse_operand_arms()
+    variant_of_kind = {k: a["operands"][0][0] for k, a in P.items() if a["operands"]}
+    enum_params = {a["args_fn"] and k for k, a in P.items() if a["args_fn"] and a["args_fn"] not in MASK_ARG_FNS}
+    enum_params.discard(None)
+    entries = T["core"]
     # quick: a third of the entries (rotating with the seed) plus every entry with a special kind; thorough: all
     special = {"LiteralContextDependentNumber", "PairLiteralIntegerIdRef", "LiteralSpecConstantOpInteger", "PairIdRefLiteralInteger", "PairIdRefIdRef"}
     chosen = []
     for i, e in enumerate(entries):
         kinds = {kn[k] for k, _ in e["operands"]}
-        if ctx.tier == "thorough" or (kinds & special) or i % 8 == ctx.seed % 8 or any(k in enum_params for k in kinds):
+        if (kinds & special) or (not only_special and (ctx.tier == "thorough" or i % 8 == ctx.seed % 8 or any(k in enum_params for k in kinds))):
             chosen.append(e)
     ctx.bounds.append("%d of %d grammar entries (quick: every eighth, offset seed %% 8, plus all entries with special or parameterised kinds; thorough: all); "
                       "all word counts, all word values, all stream lengths <= 2^24, tracker arbitrary" % (len(chosen), len(entries)))
@@ -186,7 +214,6 @@ def run(ctx):
     if ctx.tier == "quick":
         nested_entries = [e for e in nested_entries if ({kn[k] for k, _ in e["operands"]} & special) or e["opname"] in
                           ("IAdd", "VectorShuffle", "CompositeExtract", "CompositeInsert", "Select", "SConvert", "AccessChain", "Nop", "Load", "ImageRead", "Decorate")]
-    rp = Replay()
     npaths = 0
     import time as _time, sys as _sys
     for e in chosen:
@@ -220,19 +247,7 @@ def run(ctx):
                               "Op%s: %s; on the compiled crate: %s" % (e["opname"], what, why), {"cmd": real.get("cmd"), "real": real})
             else:
                 ctx.ob(name, None, "model reports '%s' but the compiled crate does not show it: %s" % (what, str(real)[:200]))
-    mask_parameter_bits(ctx, S, q, rp)
-    enum_parameter_values(ctx, S, q, rp)
-    import c10
-    c10.literal_lemmas(ctx, q, S, rp)        # the widths of context-dependent literals (OpConstant, OpSpecConstant, OpSwitch)
-    rp.close()
-    ctx.validated = rp.count
-    # header on the compiled code
-    res = kani.run_many(["k_parse_header"], cap_s=420)
-    kani.settle(ctx, res, lambda h: h[2:])
-    ctx.extra["states"] = len(chosen)
-    ctx.extra["transitions"] = npaths
-    ctx.extra["cvc5"] = q.summary()
-    ctx.extra["explanation"] = "parse_inst executed symbolically per grammar entry; every path classified against framing and grammar-acceptance rules."
+    return npaths, chosen
 
 
 def conforming_shapes_accepted(ctx, rp, e, res, kn, qn, variant_of_kind, enum_params):
@@ -500,6 +515,39 @@ def replay(S, rp, e, r, off, model, role):
 
 def le(w):
     return "".join("%02x" % ((w >> (8 * i)) & 0xff) for i in range(4))
+
+
+def lookup_contract(ctx, rp, entries):
+    """The symbolic runs replace `CoreInstructionTable::lookup_opcode` by its contract (decided in C09: found iff a table entry has
+    that opcode). Validation on the compiled crate: every table entry's opcode is found and yields that entry; the numbers
+    next to the table's ends and gaps are not."""
+    have = {}
+    for e in entries:
+        have.setdefault(e["opcode"], e["opname"])
+    bad = None
+    for n, nm in sorted(have.items()):
+        real = rp.ask("lookup core %d" % n)
+        if "panic" in real or not real.get("found") or real.get("opcode") != n:
+            bad = (n, nm, real)
+            break
+    if bad is None:
+        for n in sorted(set([x + 1 for x in have] + [x - 1 for x in have if x > 0] + [65535])):
+            if n in have or n > 65535:
+                continue
+            real = rp.ask("lookup core %d" % n)
+            if "panic" in real or real.get("found"):
+                bad = (n, None, real)
+                break
+    if bad is None:
+        ctx.ob("lookup-contract/%d-opcodes-found-and-their-neighbours-not" % len(have), True)
+        return
+    n, nm, real = bad
+    ctx.ob("lookup-contract", False, str(real)[:200])
+    if nm:
+        ctx.violation("parser/%s/known-opcode-not-found" % nm, "opcode %d (Op%s) is in the grammar table but the parser's lookup does not find it: an instruction with it is "
+                      "rejected as OpcodeUnknown" % (n, nm), {"cmd": "lookup core %d" % n, "real": real})
+    else:
+        ctx.violation("parser/unknown-opcode-found/%d" % n, "opcode %d is not in the grammar table but the lookup answers %s" % (n, real), {"cmd": "lookup core %d" % n, "real": real})
 
 
 def payloads_are_the_words_read(S, q, r, off):
